@@ -888,6 +888,38 @@ func (env *specEnv) call(x *Expr) (Val, error) {
 		}
 		k, _ := strconv.Atoi(vs[0].T[0].S)
 		return env.callArg(k)
+	case "noalias":
+		// noalias(p1, ..., pn): the non-nil references among the arguments are pairwise different
+		vs, err := evalArgs()
+		if err != nil {
+			return Val{}, err
+		}
+		var cs []Term
+		for i := range vs {
+			for j := i + 1; j < len(vs); j++ {
+				if len(vs[i].T) != 1 || len(vs[j].T) != 1 {
+					return Val{}, fmt.Errorf("noalias takes references")
+				}
+				cs = append(cs, implies(eq(vs[i].T[0], vs[j].T[0]), eq(vs[i].T[0], intLit(0))))
+			}
+		}
+		return boolVal(and(cs...)), nil
+	case "has":
+		// has(m, k): key k is present in map m
+		vs, err := evalArgs()
+		if err != nil {
+			return Val{}, err
+		}
+		mt, ok := vs[0].Typ.Underlying().(*types.Map)
+		if !ok || vs[0].T == nil || vs[1].T == nil {
+			return Val{}, fmt.Errorf("has(m, k) needs a map")
+		}
+		mh := e.mapHeaps(mt)
+		if mh == nil {
+			return Val{}, fmt.Errorf("has: map with composite key")
+		}
+		m, k := vs[0].T[0], vs[1].T[0]
+		return boolVal(and(app(SBool, "distinct", m, intLit(0)), sel(sel(e.heapGet(env.st, mh.dom, mh.domSort), m), k))), nil
 	case "zero":
 		// zero(T): the zero value of a type
 		if len(args) != 1 {
